@@ -4,7 +4,7 @@
    code after the fix: commits listed in docs/C05.md. *)
 From Coq Require Import List Ascii String ZArith NArith Bool.
 From YP Require Import Outcome PyStr PyVal Doc PathParser Searches MergeConfig Merge SpecC05 SpecC05Union MergeBasics MergeHash
-  MergeNoCrash MergeUnion MergeUnique.
+  MergeNoCrash MergeUnion MergeUnique MergeTrans MergePos.
 (* obligations tying the models' literal tables to the tables regenerated from the source *)
 From YP Require Import GenTables.
 Import ListNotations.
@@ -381,3 +381,102 @@ Example C05_precedence_example :
   array_merge_mode cfg (mkcoord 22 (Some 20) (Some (PStr "a"))) = Ok AUnique /\
   array_merge_mode (mkconfig true [] [] None None None None None None (Some "right") None None None) nc = Ok ARight.
 Proof. vm_compute. repeat split; reflexivity. Qed.
+
+(* ================= round 4 ================= *)
+(* sets=UNIQUE, declaratively, for all inputs (a right-hand Set, or the Array _insert_list hands
+   over): the result holds the left members in their order, followed -- in the right-hand order --
+   by exactly those right-hand members that equal no member already present: no original left
+   member in the merger's tagless comparison, no member present (left or appended before) as it is
+   (SpecC05Union.mg_new_members). *)
+Theorem C05_set_unique_declarative :
+  forall cfg li lels ri rels nc,
+    set_merge_mode cfg nc = Ok SUnique ->
+    merge_sets cfg (NSet li lels) (NSet ri rels) nc =
+      Ok (same (NSet li (lels ++ mg_new_members (map tagless lels) lels rels))) /\
+    merge_sets cfg (NSet li lels) (NSeq ri rels) nc =
+      Ok (same (NSet li (lels ++ mg_new_members (map tagless lels) lels rels))).
+Proof. exact set_unique_declarative. Qed.
+Print Assumptions C05_set_unique_declarative.
+
+Theorem C05_set_unique_new_members :
+  forall rels tl present x,
+    In x (mg_new_members tl present rels) ->
+    In x rels /\ in_list (tagless x) tl = false /\ in_list x present = false.
+Proof. exact in_new_members. Qed.
+
+(* Python's == on loaded nodes is transitive on plain documents (computable guard mg_plain: no
+   TaggedScalar, hash keys are Scalars) ... *)
+Theorem C05_node_eq_transitive_plain :
+  forall a b c, mg_plain a = true -> mg_plain b = true -> mg_plain c = true ->
+    node_eq a b = true -> node_eq b c = true -> node_eq a c = true.
+Proof. exact node_eq_trans_plain. Qed.
+Print Assumptions C05_node_eq_transitive_plain.
+
+(* ... and is NOT on arbitrary trees: a TaggedScalar compares by object identity, an untagged
+   Scalar by value; a tree showing one identity with a tagged and an untagged face breaks the
+   chain (no loaded heap does: one object has one class) *)
+Theorem C05_node_eq_not_transitive_refuted :
+  exists a b c, node_eq a b = true /\ node_eq b c = true /\ node_eq a c = false.
+Proof. exact node_eq_not_transitive. Qed.
+
+(* arrays=UNIQUE on plain documents: the chain of C05_array_unique collapses to ONE equality --
+   every element of the result is the element standing there (left element, or new right-hand
+   element) or a right-hand element EQUAL to it; the new elements are those equal to nothing
+   present (mg_new_full: without tags the tagless comparison is the comparison) *)
+Theorem C05_array_unique_plain :
+  forall cfg li lels ri rels nc,
+    array_merge_mode cfg nc = Ok AUnique ->
+    forallb mg_plain lels = true -> forallb mg_plain rels = true ->
+    exists m i res, merge_simple_lists cfg (NSeq li lels) (NSeq ri rels) nc = Ok m /\ ret m = NSeq i res /\
+      Forall2 (mg_same_or_equal rels) (lels ++ mg_new_full lels rels) res.
+Proof. exact array_unique_plain. Qed.
+Print Assumptions C05_array_unique_plain.
+
+(* non-vacuity: {1, a} + {a, 2, 2} -> {1, a, 2}; the guards hold of plain elements and fail on a TaggedScalar *)
+Example C05_set_unique_example :
+  mg_new_members (map tagless [leaf 3 (PInt 1); leaf 4 (PStr "a")]) [leaf 3 (PInt 1); leaf 4 (PStr "a")]
+                 [leaf 5 (PStr "a"); leaf 6 (PInt 2); leaf 7 (PInt 2)] = [leaf 6 (PInt 2)] /\
+  set_merge_mode (cfg_plain None None None None) (mkcoord 20 None None) = Ok SUnique /\
+  forallb mg_plain [leaf 3 (PInt 1); mapn 11 [(k "a", seqn 12 [leaf 4 (PInt 2)])]] = true /\
+  mg_plain (NLeaf (mkinfo 5 None true (Some "!t")) (POther "x")) = false.
+Proof. repeat split; vm_compute; reflexivity. Qed.
+
+(* WHERE the right-only keys land (the exact place the insertion buffer of _merge_dicts gives them;
+   the property text does not fix it).  A maximal run blk of n right-only keys followed by a common
+   key c, with a right-only keys and g COUNTED common keys before it (a common key counts unless its
+   step `continue`d: policy keep-left / take-right; MergePos.mg_counted), occupies the result indices
+   min(2a + g + n, |left| + a), ... contiguously; a trailing run is appended at |left| + a.
+   (`buffer_pos` counts a buffered key when it is buffered AND when it is written.) *)
+Theorem C05_hash_union_position :
+  forall lit cfg ri rkvs nc li lkvs res pre blk c post,
+    mg_keys_leaf lkvs = true -> mg_keys_leaf rkvs = true -> mg_distinct rkvs = true ->
+    merge_rec lit cfg (NMap ri rkvs) nc (NMap li lkvs) = Ok (NMap li res) ->
+    rkvs = pre ++ blk ++ c :: post ->
+    mg_run_start lkvs pre -> Forall (fun kv => inL (keys_of lkvs) kv = false) blk -> inL (keys_of lkvs) c = true ->
+    forall i y, nth_error blk i = Some y ->
+      nth_error res (Nat.min (2 * cnt_new lkvs pre + cnt_go cfg (oid ri) lkvs pre + List.length blk)
+                             (List.length lkvs + cnt_new lkvs pre) + i) = Some y.
+Proof. exact hash_union_position. Qed.
+Print Assumptions C05_hash_union_position.
+
+Theorem C05_hash_union_position_trailing :
+  forall lit cfg ri rkvs nc li lkvs res pre blk,
+    mg_keys_leaf lkvs = true -> mg_keys_leaf rkvs = true -> mg_distinct rkvs = true ->
+    merge_rec lit cfg (NMap ri rkvs) nc (NMap li lkvs) = Ok (NMap li res) ->
+    rkvs = pre ++ blk ->
+    mg_run_start lkvs pre -> Forall (fun kv => inL (keys_of lkvs) kv = false) blk ->
+    forall i y, nth_error blk i = Some y ->
+      nth_error res (List.length lkvs + cnt_new lkvs pre + i) = Some y.
+Proof. exact hash_union_trailing. Qed.
+Print Assumptions C05_hash_union_position_trailing.
+
+(* {a,b,c,d,e} + {x, e}: x is written at index min(0+0+1, 5+0) = 1 -- a, x, b, c, d, e *)
+Example C05_position_example :
+  let lk := [(k "a", leaf 3 (PInt 1)); (k "b", leaf 3 (PInt 1)); (k "c", leaf 3 (PInt 1));
+             (k "d", leaf 3 (PInt 1)); (k "e", leaf 3 (PInt 1))] in
+  let rk := [(k "x", leaf 6 (PInt 9)); (k "e", leaf 7 (PInt 7))] in
+  mg_run_start lk [] /\ inL (keys_of lk) (k "x", leaf 6 (PInt 9)) = false /\ inL (keys_of lk) (k "e", leaf 7 (PInt 7)) = true /\
+  merge_rec no_lit (cfg_plain None None None None) (mapn 20 rk) (mkcoord 20 None None) (mapn 10 lk) =
+  Ok (mapn 10 [(k "a", leaf 3 (PInt 1)); (k "x", leaf 6 (PInt 9)); (k "b", leaf 3 (PInt 1)); (k "c", leaf 3 (PInt 1));
+               (k "d", leaf 3 (PInt 1)); (k "e", leaf 7 (PInt 7))]).
+Proof. split; [now left|]. repeat split; vm_compute; reflexivity. Qed.
